@@ -2,10 +2,10 @@
 from .common import A_COMMON
 NP = "menelaus.partitioners.NNSpacePartitioner:NNSpacePartitioner"
 ND = "menelaus.data_drift.nndvi:NNDVI"
-TARGETS = [("fn", ND + ".update"), ("fn", ND + ".set_reference"), ("fn", ND + "._compute_drift_threshold"), ("fn", NP + ".compute_nnps_distance"), ("lemma", "nnps_vector_form"), ("lemma", "nnps_symmetric"),
+TARGETS = [("fn", ND + ".update"), ("fn", ND + ".set_reference"), ("fn", ND + "._compute_drift_threshold"), ("fn", NP + ".compute_nnps_distance"), ("fn", NP + ".build"), ("lemma", "nnps_vector_form"), ("lemma", "nnps_symmetric"),
            ("lemma", "nnps_identity"), ("lemma", "nnps_range")]
 LEVEL = "exploration"
-LEVEL_TEXT = ("Bounded: NNSpacePartitioner membership vectors, brute-force k-NN adjacency on tie-free data, distance symmetry / range / identity; NNDVI decisions recomputed under the same seed. The claim that sklearn's kneighbors_graph is the k-NN relation is trusted (probed). Deductive (counted separately): compute_nnps_distance returns nnps_sum(v1.M, v2.M, n)/n "
+LEVEL_TEXT = ("Deductive (new, counted separately): NNSpacePartitioner.build - D holds the pooled points (every point of either sample is a row of D, through the inverse indices), and the membership vectors v1 / v2 are 0/1 marks of EXACTLY the rows of D that occur in sample 1 / sample 2, for any two sample sizes and any multiplicities (content-level models of np.vstack, np.unique(axis=0, return_inverse=True) by its documented contract, np.split, index-vector assignment); the nearest-neighbour part and the NNPS matrix are abstracted (not verified). Bounded: NNSpacePartitioner membership vectors, brute-force k-NN adjacency on tie-free data, distance symmetry / range / identity; NNDVI decisions recomputed under the same seed. The claim that sklearn's kneighbors_graph is the k-NN relation is trusted (probed). Deductive (counted separately): compute_nnps_distance returns nnps_sum(v1.M, v2.M, n)/n "
          "for a recursive spec function nnps_sum (the numpy vector expression is shown equal to it by induction), with "
          "lemmas symmetric / 0 on equal membership vectors (positive denominators) / in [0, n] for non-negative entries. "
          "NNDVI.update / set_reference are proved as a skeleton: the distance recorded for a batch (ghost d_act) is the contract-level distance of "
